@@ -269,6 +269,52 @@ var trConfs = []trConf{
 		returns: map[string]string{"return types.ErrNoFeegranter": ".rejected 20", "return types.ErrNoFunder": ".rejected 21", "return err": ".rejected err",
 			"return types.ErrInsufficientBalance": ".rejected 22",
 			"return k.feegrantKeeper.GrantAllowance(ctx, feegranter.Account, acct, allowance)": "if grantCode != 0 then .rejected grantCode else .done (funder.getD 0)"}},
+	{key: "x/skyway/keeper.Keeper.AddToOutgoingPool", lean: "addToOutgoingPool", ret: "PoolOutcome",
+		prelude: "/-- the effects of the two pool functions, in the order they are performed -/\ninductive PoolEffect where\n  | usage | lock (amount : Int) | allocId | store (amount tax : Int) | remove | refund (amount : Int)\nderiving DecidableEq, Repr\n\n/-- how a pool function ended and what it had done by then (a failure after the first effect is undone by the caller's branched store) -/\ninductive PoolOutcome where\n  | failed (code : Nat) (done : List PoolEffect)\n  | ok (done : List PoolEffect)\nderiving DecidableEq, Repr",
+		params: []trParam{{"argsInvalid", "Bool"}, {"usageCode", "Nat"}, {"taxResult", "Option Int"}, {"amt", "Int"}, {"erc20Missing", "Bool"}, {"lockFails", "Bool"},
+			{"idFails", "Bool"}, {"tokenBad", "Bool"}, {"convFails", "Bool"}, {"storeFails", "Bool"}, {"chainInfoFails", "Bool"}, {"eventFails", "Bool"}},
+		init: []string{"let mut err : Nat := 0", "let mut trace : List PoolEffect := []", "let mut taxedAmount : Int := 0"},
+		atoms: map[string]string{"err != nil": "err != 0", "amount.Amount": "amt",
+			"sdkCtx.IsZero() || sdk.VerifyAddressFormat(sender) != nil || counterpartReceiver.ValidateBasic() != nil || !amount.IsValid()": "argsInvalid"},
+		skip: []string{"sdkCtx := sdk.UnwrapSDKContext(ctx)", "amountInVouchers := sdk.Coins{totalAmount}"},
+		stmts: map[string][]string{
+			"err := k.UpdateBridgeTransferUsageWithLimit(ctx, sender, amount)": {"err := usageCode", "if err == 0 then", "  trace := trace ++ [.usage]"},
+			"taxedAmount, err := k.bridgeTaxAmount(ctx, sender, amount)":       {"err := if taxResult.isNone then 2 else 0", "taxedAmount := taxResult.getD 0"},
+			"tokenContract, err := k.GetERC20OfDenom(ctx, chainReferenceID, amount.Denom)": {"err := if erc20Missing then 3 else 0"},
+			"if err := k.bankKeeper.SendCoinsFromAccountToModule(ctx, sender, types.ModuleName, amountInVouchers); err != nil { return 0, err }": {
+				"if lockFails then", "  return .failed 4 trace", "trace := trace ++ [.lock totalAmount_Amount]"},
+			"nextID, err := k.autoIncrementID(ctx, types.KeyLastTXPoolID)": {"err := if idFails then 5 else 0", "if err == 0 then", "  trace := trace ++ [.allocId]"},
+			"erc20Token, err := types.NewInternalERC20Token(amount.Amount, tokenContract.GetAddress().Hex(), chainReferenceID)": {"err := if tokenBad then 6 else 0"},
+			"outgoing, err := types.OutgoingTransferTx{ Id: nextID, Sender: sender.String(), DestAddress: counterpartReceiver.GetAddress().Hex(), Erc20Token: erc20Token.ToExternal(), BridgeTaxAmount: taxedAmount, }.ToInternal()": {"err := if convFails then 7 else 0"},
+			"err = k.addUnbatchedTX(ctx, outgoing)":                          {"err := if storeFails then 8 else 0", "if err == 0 then", "  trace := trace ++ [.store amt taxedAmount]"},
+			"ci, err := k.EVMKeeper.GetChainInfo(ctx, chainReferenceID)":     {"err := if chainInfoFails then 9 else 0"}},
+		returns: map[string]string{"return 0, sdkerrors.Wrap(types.ErrInvalid, \"arguments\")": ".failed 1 trace", "return 0, err": ".failed err trace",
+			"return 0, sdkerrors.Wrapf(err, \"invalid ERC20Token from amount %d and contract %v\", amount.Amount, tokenContract)": ".failed err trace",
+			"return 0, sdkerrors.Wrap(err, \"unable to create InternalOutgoingTransferTx\")":                                        ".failed err trace",
+			"return nextID, sdkCtx.EventManager().EmitTypedEvent( &types.EventWithdrawalReceived{ BridgeContract: ci.SmartContractAddr, BridgeChainId: strconv.Itoa(int(ci.ChainID)), OutgoingTxId: strconv.Itoa(int(nextID)), Nonce: fmt.Sprint(nextID), }, )": "if eventFails then .failed 10 trace else .ok trace"}},
+	{key: "x/skyway/keeper.Keeper.RemoveFromOutgoingPoolAndRefund", lean: "removeFromPoolAndRefund", ret: "PoolOutcome",
+		params: []trParam{{"ctxZero", "Bool"}, {"txId", "UInt64"}, {"senderBad", "Bool"}, {"txFound", "Bool"}, {"txSender", "Nat"}, {"sender", "Nat"},
+			{"txAmount", "Int"}, {"txTax", "Int"}, {"removeFails", "Bool"}, {"stillThere", "Bool"}, {"denomMissing", "Bool"}, {"refundFails", "Bool"},
+			{"chainInfoFails", "Bool"}, {"eventFails", "Bool"}},
+		init: []string{"let mut err : Nat := 0", "let mut trace : List PoolEffect := []"},
+		atoms: map[string]string{"err != nil": "err != 0", "sdkCtx.IsZero()": "ctxZero", "sdk.VerifyAddressFormat(sender) != nil": "senderBad",
+			"tx.Sender.Equals(sender)": "txSender == sender", "oldTx != nil || oldTxErr == nil": "stillThere",
+			"tx.Erc20Token.Amount": "txAmount", "tx.BridgeTaxAmount": "txTax"},
+		skip: []string{"sdkCtx := sdk.UnwrapSDKContext(ctx)", "oldTx, oldTxErr := k.GetUnbatchedTxByAmountAndId(ctx, *tx.Erc20Token, tx.Id)",
+			"totalToRefundCoins := sdk.NewCoins(totalToRefund)"},
+		stmts: map[string][]string{
+			"tx, err := k.GetUnbatchedTxById(ctx, txId)":                   {"err := if txFound then 0 else 2"},
+			"err = k.removeUnbatchedTX(ctx, *tx.Erc20Token, txId)":        {"err := if removeFails then 3 else 0", "if err == 0 then", "  trace := trace ++ [.remove]"},
+			"denom, err := k.GetDenomOfERC20(ctx, tx.Erc20Token.ChainReferenceID, tx.Erc20Token.Contract)": {"err := if denomMissing then 5 else 0"},
+			"if err = k.bankKeeper.SendCoinsFromModuleToAccount(ctx, types.ModuleName, sender, totalToRefundCoins); err != nil { return sdkerrors.Wrap(err, \"transfer vouchers\") }": {
+				"if refundFails then", "  return .failed 6 trace", "trace := trace ++ [.refund totalToRefund_Amount]"},
+			"ci, err := k.EVMKeeper.GetChainInfo(ctx, tx.Erc20Token.ChainReferenceID)": {"err := if chainInfoFails then 9 else 0"}},
+		returns: map[string]string{"return sdkerrors.Wrap(types.ErrInvalid, \"arguments\")": ".failed 1 trace", "return err": ".failed err trace",
+			"return sdkerrors.Wrapf(err, \"unknown transaction with id %d from sender %s\", txId, sender.String())": ".failed err trace",
+			"return sdkerrors.Wrapf(types.ErrInvalid, \"Sender %s did not send Id %d\", sender, txId)":             ".failed 7 trace",
+			"return sdkerrors.Wrapf(types.ErrInvalid, \"txId %d not in unbatched index! Must be in a batch!\", txId)": ".failed err trace",
+			"return sdkerrors.Wrapf(types.ErrInvalid, \"tx with id %d was not fully removed from the pool, a duplicate must exist\", txId)": ".failed 4 trace",
+			"return sdkCtx.EventManager().EmitTypedEvent( &types.EventWithdrawCanceled{ Sender: sender.String(), TxId: fmt.Sprint(txId), BridgeContract: ci.SmartContractAddr, BridgeChainId: strconv.Itoa(int(ci.ChainID)), }, )": "if eventFails then .failed 10 trace else .ok trace"}},
 	{key: "x/metrix/keeper.calculateUptime", lean: "calculateUptimeGuard", ret: "Bool",
 		params: []trParam{{"window", "Int"}, {"missed", "Int"}},
 		// only the guard is arithmetic; the division goes through big.Float (modelled in C14's score arithmetic)
@@ -744,6 +790,45 @@ func (c *trCtx) block(stmts []ast.Stmt, ind string, out *[]string) {
 					}
 				}
 				continue
+			}
+			// `x := sdk.NewCoin(denom, amount)`: the coin's amount
+			if ce, ok := s.Rhs[0].(*ast.CallExpr); ok && s.Tok == token.DEFINE && src(ce.Fun) == "sdk.NewCoin" && len(ce.Args) == 2 {
+				emit(fmt.Sprintf("let mut %s_Amount : Int := %s", id.Name, c.expr(ce.Args[1])))
+				c.noteType(id.Name+"_Amount", "Int")
+				if c.structLocals == nil {
+					c.structLocals = map[string][]string{}
+				}
+				c.structLocals[id.Name] = []string{"Amount"}
+				continue
+			}
+			// `x := T{Field: e, …}` for a struct T: one mutable variable per field whose type is translatable
+			if cl, ok := s.Rhs[0].(*ast.CompositeLit); ok && s.Tok == token.DEFINE {
+				if tv, ok := c.fi.pkg.TypesInfo.Types[cl]; ok {
+					if _, isStruct := tv.Type.Underlying().(*types.Struct); isStruct {
+						var fields []string
+						for _, el := range cl.Elts {
+							kv, ok := el.(*ast.KeyValueExpr)
+							if !ok {
+								c.fail("positional struct literal %s", text)
+								continue
+							}
+							vt, ok := c.fi.pkg.TypesInfo.Types[kv.Value]
+							if !ok {
+								continue
+							}
+							if lt := c.leanType(vt.Type); lt != "" {
+								fields = append(fields, src(kv.Key))
+								emit(fmt.Sprintf("let mut %s_%s : %s := %s", id.Name, src(kv.Key), lt, c.expr(kv.Value)))
+								c.noteType(id.Name+"_"+src(kv.Key), lt)
+							}
+						}
+						if c.structLocals == nil {
+							c.structLocals = map[string][]string{}
+						}
+						c.structLocals[id.Name] = fields
+						continue
+					}
+				}
 			}
 			r := c.expr(s.Rhs[0])
 			switch s.Tok {
